@@ -16,65 +16,98 @@ package onepass
 //	    entireMatch := input[slots[0]:slots[1]]
 //	    group1 := input[slots[2]:slots[3]]
 //	}
+//
+// The search implements leftmost-first semantics: the DFA follows the single
+// possible path through the input and remembers the last match state it passed.
+// A match is final (returned immediately) when the transition for the next byte
+// has lower priority than the match (IsMatchWins), when there is no transition
+// for the next byte, or when the input is exhausted. A higher-priority
+// transition is still followed after a match was seen; if that path later dies,
+// the remembered match is the answer.
 func (d *DFA) Search(input []byte, cache *Cache) []int {
-	cache.Reset()
+	return d.search(input, cache, false)
+}
 
-	// Initialize group 0 start (entire match always starts at 0 for anchored search)
-	if len(cache.slots) >= 2 {
-		cache.slots[0] = 0
+// SearchLongest is like Search but implements leftmost-longest semantics:
+// the path through the input is followed as far as possible and the last
+// match state passed is the answer, regardless of priorities. Because the
+// path is unique, the last match is the longest one.
+func (d *DFA) SearchLongest(input []byte, cache *Cache) []int {
+	return d.search(input, cache, true)
+}
+
+// search implements Search (longest=false) and SearchLongest (longest=true).
+func (d *DFA) search(input []byte, cache *Cache, longest bool) []int {
+	cache.Reset()
+	if len(cache.scratch) != len(cache.slots) {
+		cache.scratch = make([]int, len(cache.slots))
+		for i := range cache.scratch {
+			cache.scratch[i] = -1
+		}
 	}
 
+	// cache.scratch follows the current path, cache.slots holds the last match.
+	slots := cache.scratch
+	matched := false
+
 	state := d.startState
-	pos := 0
 
 	// Main search loop
-	for pos < len(input) {
-		b := input[pos]
-		class := d.classes.Get(b)
+	for pos := 0; pos < len(input); pos++ {
+		class := d.classes.Get(input[pos])
 		trans := d.getTransition(state, class)
 
-		// Check for dead state (no match)
+		// Check for match before consuming the byte. A state that only matches
+		// at end of input is not a match here.
+		if d.isMatchState(state) && !d.isEndMatchState(state) {
+			d.recordMatch(cache, state, pos)
+			matched = true
+			// Leftmost-first: the match has priority over this transition
+			if trans.IsMatchWins() && !longest {
+				return cache.slots
+			}
+		}
+
+		// Check for dead state (the path ends here)
 		if trans.IsDead() {
+			if matched {
+				return cache.slots
+			}
 			return nil
 		}
 
 		// Update capture slots BEFORE consuming byte
 		// Slots represent epsilon transitions leading TO this byte transition
 		// They should be recorded at the current position (before advancing)
-		trans.UpdateSlots(cache.slots, pos)
-
-		// Consume the byte AFTER updating slots
-		pos++
+		trans.UpdateSlots(slots, pos)
 
 		// Transition to next state
-		nextState := trans.NextState()
-
-		// Check for match (leftmost-first: return on first match if match-wins)
-		if trans.IsMatchWins() && d.isMatchState(nextState) {
-			// Apply match slots (capture END positions from match state's epsilon closure)
-			applyMatchSlots(cache.slots, d.getMatchSlots(nextState), pos)
-			// Set end of entire match (group 0)
-			if len(cache.slots) >= 2 {
-				cache.slots[1] = pos
-			}
-			return cache.slots
-		}
-
-		state = nextState
+		state = trans.NextState()
 	}
 
-	// Check final state for match
+	// Check final state for match (capture END positions at end of input)
 	if d.isMatchState(state) {
-		// Apply match slots at end of input (capture END positions)
-		applyMatchSlots(cache.slots, d.getMatchSlots(state), len(input))
-		// Set end of entire match to end of input
-		if len(cache.slots) >= 2 {
-			cache.slots[1] = len(input)
-		}
+		d.recordMatch(cache, state, len(input))
+		matched = true
+	}
+
+	if matched {
 		return cache.slots
 	}
-
 	return nil
+}
+
+// recordMatch saves the match found in match state 'state' at position pos:
+// the captures of the current path, the capture END positions from the match
+// state's epsilon closure, and the bounds of the entire match (group 0).
+func (d *DFA) recordMatch(cache *Cache, state StateID, pos int) {
+	copy(cache.slots, cache.scratch)
+	applyMatchSlots(cache.slots, d.getMatchSlots(state), pos)
+	if len(cache.slots) >= 2 {
+		// Entire match always starts at 0 for anchored search
+		cache.slots[0] = 0
+		cache.slots[1] = pos
+	}
 }
 
 // applyMatchSlots applies the slot mask at the given position.
